@@ -68,6 +68,8 @@ type Handler struct {
 	// channels of playing sessions)
 	OnRecvRTP      func(sess int, mediaIdx int, forma format.Format, pkt *rtp.Packet)
 	BackChannelRTP bool
+	// RefusePause: while set, OnPause answers 405 and the session keeps streaming
+	RefusePause atomic.Bool
 	// OnRecvRTCP is invoked for RTCP packets received from any playing or recording session
 	OnRecvRTCP func(sess int)
 	// Forward received packets into the record stream
@@ -290,6 +292,10 @@ func (h *Handler) OnRecord(ctx *gortsplib.ServerHandlerOnRecordCtx) (*base.Respo
 
 func (h *Handler) OnPause(ctx *gortsplib.ServerHandlerOnPauseCtx) (*base.Response, error) {
 	h.rec("pause", ctx.Conn, ctx.Session, ctx.Path, ctx.Query, -1, nil)
+	if h.RefusePause.Load() {
+		// an application that does not let this session pause right now: the session goes on as it was
+		return &base.Response{StatusCode: base.StatusMethodNotAllowed}, nil
+	}
 	return &base.Response{StatusCode: base.StatusOK}, nil
 }
 
